@@ -21,8 +21,9 @@ import (
 
 var (
 	// CodeDuplicateSourcePosition is returned when a single batch read from a
-	// source contains two or more records carrying identical position bytes, and
-	// that batch is fanned out to multiple destinations.
+	// source contains two or more records carrying identical position bytes.
+	// The batch is refused as soon as it is read (see validateDistinctPositions),
+	// and again wherever a batch is fanned out to multiple destinations.
 	//
 	// A position is a record's identity: multiAckNacker keys its per-position
 	// unanimity tally on it, and connector.Source.Ack advances the persisted
